@@ -59,6 +59,7 @@ func carryoverPhase(r *vkit.R) {
 		}
 	}
 	r.Parallel(len(cases), 32, func(i int, _ *vkit.Rand) { runCarryCase(r, cases[i]) })
+	carryoverBucketCases(r)
 }
 
 func runCarryCase(r *vkit.R, c carryCase) {
@@ -189,4 +190,125 @@ func runCarryCase(r *vkit.R, c carryCase) {
 	r.Violation(fmt.Sprintf("C09/%s-maxinflight/inflight-above-global/beyond-carryover", strat),
 		fmt.Sprintf("max-in-flight schema local=%d global=%d, %s strategy, %s, quota %d: %d requests in flight at once (%d through the local limiter object, %d through the remote one, switch observed: %v): more than a local<->remote switch explains (one limiter object alone is over its limit, or no switch happened)",
 			cfg.L, cfg.G, strat, c.Direction, c.Q, total, nl, nr, switched), c)
+}
+
+// ---- token buckets: the same two-limiter construction for the RATE clause -------------------------------------------------
+// The local and the remote limiter are two independent buckets. A switch between them (readiness flip / first sync) hands
+// the caller a second, full bucket: drain the bucket in effect, switch, drain the other one; both drains together take
+// microseconds, so local burst + granted burst > global burst is more than the global bucket allows in that window.
+// Classification as for max in flight: both drains within their own bucket's bound and from different limiter objects =
+// carry-over signature (token bucket); anything else above the global bound = a different signature.
+
+const (
+	sigCarryCountTB    = "C09/count-tokenbucket/rate-above-global/carryover-across-local-remote-switch"
+	sigCarryAllocateTB = "C09/allocate-tokenbucket/rate-above-global/carryover-across-local-remote-switch"
+)
+
+func carryoverBucketCases(r *vkit.R) {
+	g := r.Rng.Fork("carryover-tb")
+	type tbCase struct {
+		Cfg       schemaCfg `json:"schema"`
+		Q, B      int32
+		Direction string `json:"direction"`
+	}
+	var cases []tbCase
+	for _, st := range []proxyv1alpha1.LimitStrategy{proxyv1alpha1.GlobalAllocateLimit, proxyv1alpha1.GlobalCountLimit} {
+		for i := 0; i < r.N(3, 30); i++ {
+			G := int32(g.Range(50, 150))
+			GB := int32(g.Range(int(G), 2*int(G)))
+			L := int32(g.Range(20, int(G)))
+			LB := int32(g.Range(int(L), int(GB))) // admission-valid shapes: burst >= qps
+			for _, d := range []string{"local->remote", "remote->local"} {
+				cases = append(cases, tbCase{Cfg: schemaCfg{Strategy: string(st), Type: "tokenbucket", L: L, LB: LB, G: G, GB: GB}, Q: G, B: GB, Direction: d})
+			}
+		}
+	}
+	r.Parallel(len(cases), 16, func(i int, _ *vkit.Rand) {
+		c := cases[i]
+		cfg := c.Cfg
+		isCount := cfg.Strategy == string(proxyv1alpha1.GlobalCountLimit)
+		sig, strat := sigCarryAllocateTB, "allocate"
+		if isCount {
+			sig, strat = sigCarryCountTB, "count"
+		}
+		gw := newGateway(cfg, "gw-1", 1)
+		defer gw.close()
+		gw.cs.setAllocate(func(req *proxyv1alpha1.RateLimitCondition) (*proxyv1alpha1.RateLimitCondition, error) {
+			if isCount {
+				return allocReply(req), nil
+			}
+			return allocReply(req, allocItem(cfg, c.Q, c.B)), nil
+		})
+		grant := func() bool {
+			if vkit.Safely(func() { gw.reconcileOnce() }) != nil {
+				return false
+			}
+			if !isCount {
+				return true
+			}
+			gw.cs.setUnknown(true)
+			cache := gw.lim.AllFlowControls()[schemaName]
+			if cache == nil || cache.FlowControl() == nil {
+				return false
+			}
+			res := &proxyv1alpha1.RateLimitAcquireResult{FlowControl: schemaName, Accept: true, Limit: 100000}
+			req := &proxyv1alpha1.RateLimitAcquireRequest{FlowControl: schemaName}
+			return vkit.Safely(func() { cache.FlowControl().SetLimit(remote.VerifNewAcquireResult(req, res, time.Now().UnixNano())) }) == nil
+		}
+		type dr struct {
+			fc     flowcontrol.FlowControl
+			n      int
+			t0, t1 int64
+		}
+		doDrain := func() (d dr) {
+			vkit.Safely(func() {
+				d.fc = gw.fc()
+				d.n, d.t0, d.t1 = drain(d.fc, int(cfg.GB+cfg.LB)+10)
+			})
+			return
+		}
+		var first, second dr
+		if c.Direction == "local->remote" {
+			gw.cs.setReady(false)
+			first = doDrain()
+			gw.cs.setReady(true)
+			if !grant() {
+				r.Inconclusive("token-bucket carry-over case: could not install the remote limiter")
+				return
+			}
+		} else {
+			gw.cs.setReady(true)
+			if !grant() {
+				r.Inconclusive("token-bucket carry-over case: could not install the remote limiter")
+				return
+			}
+			first = doDrain()
+			gw.cs.setReady(false)
+		}
+		second = doDrain()
+		r.Eval(1)
+		r.Count("carryover_tb_cases", 1)
+		r.Distinct(vkit.Hash64(fmt.Sprintf("carry-tb|%+v|%s", cfg, c.Direction)))
+		total := first.n + second.n
+		dt := float64(second.t1-first.t0) / 1e9
+		allowed := float64(cfg.GB) + float64(cfg.G)*dt + 1
+		if float64(total) <= allowed {
+			r.Count("carryover_tb_cases_within_global", 1)
+			return
+		}
+		loc, rem := first, second
+		if second.fc == gw.local {
+			loc, rem = second, first
+		}
+		within := func(d dr, q, b int32) bool { return float64(d.n) <= float64(b)+float64(q)*float64(d.t1-d.t0)/1e9+1 }
+		if first.fc != second.fc && loc.fc == gw.local && rem.fc != gw.local && loc.n > 0 && rem.n > 0 && within(loc, cfg.L, cfg.LB) && within(rem, cfg.G, cfg.GB) {
+			r.Count("carryover_tb_cases_above_global", 1)
+			r.Violation(sig,
+				fmt.Sprintf("token-bucket schema local=(%d qps, burst %d) global=(%d qps, burst %d), %s strategy, %s: %d requests admitted within %.6fs = %d from the local limiter object + %d from the remote one (each within its own bucket; two independent buckets, a switch hands out a second full bucket); the global bucket allows at most %.1f",
+					cfg.L, cfg.LB, cfg.G, cfg.GB, strat, c.Direction, total, dt, loc.n, rem.n, allowed-1), c)
+			return
+		}
+		r.Violation(fmt.Sprintf("C09/%s-tokenbucket/rate-above-global/beyond-carryover", strat),
+			fmt.Sprintf("token-bucket schema local=(%d,%d) global=(%d,%d), %s strategy, %s: %d admitted within %.6fs (%d + %d), more than a local<->remote switch explains", cfg.L, cfg.LB, cfg.G, cfg.GB, strat, c.Direction, total, dt, first.n, second.n), c)
+	})
 }
